@@ -570,7 +570,14 @@ def replay_main(check, path):
     try:
         check.setup()
         canary_setup(check)
+        check.brd.exhaustive = True
         out = run_one(check, rec['case'], rec.get('class'), rec.get('index'))
+        for f in rec.get('fails', []):
+            w = (f.get('detail') or {}).get('brd_witness')
+            if w and not any(x['clause'] == f['clause'] for x in out.fails):
+                msg = check.brd.replay_witness(w)
+                if msg:
+                    out.fail(f['clause'], msg)
     finally:
         check.teardown()
         shutil.rmtree(check.workdir, ignore_errors=True)
